@@ -265,6 +265,7 @@ class MemSpec:
             mods, _probs = parse(text)
             self.it = Interp(mods)
             self.it_names = {n[1:] for n in self.it.top.mod.wires}
+            self.in_names = sorted(s.name for s in inputs if s.name in self.it_names)
             mems = self.it.find_mem("mem")
             self.it_has_mem = len(mems) == 1
         return sysm
@@ -358,7 +359,7 @@ class MemSpec:
             _p, i, v = a
             sysm.set_inputs(0)            # the explorer loads states, not inputs: give both executions the same (idle) inputs
             if it is not None:
-                it.set({n: 0 for n in self.it_names if n.startswith(("w", "r")) and "_" in n and not n.endswith("_data")})
+                it.set({n: 0 for n in self.in_names})
             ctx.set(self.md[i], native_of(self.shape, v))
             rows[i] = v
             flags.append("tb-set")
@@ -601,7 +602,8 @@ def run_config(task):
     out.update(states=res.states, transitions=res.transitions, depth=res.max_depth, flags=sorted(res.flags), capped=res.capped,
                validated=res.traces_validated, wall=round(res.wall, 2))
     seen = set()
-    for errs, path in res.errors:
+    leftover = list(getattr(spec, "root_errs", None) or [])       # a memory without any action never reaches step()
+    for errs, path in [(leftover, [])] + list(res.errors):
         for e in errs:
             kind, _, text = e.partition("|")
             if kind in seen:
@@ -641,7 +643,7 @@ def run(rep):
     cfgs, budget = configs(rep)
     cfgs.sort(key=lambda c: -c[1])
     replay_n = rep.pick(4, 12)
-    tasks = rotate([(c, replay_n) for c, _cost in cfgs], rep.seed % 7)
+    tasks = rotate([(c, replay_n) for c, _cost in cfgs], rep.seed)
     allflags = set()
     shapes, depths = set(), set()
     for r in pmap(run_config, tasks, rep.procs, chunksize=2):
@@ -663,7 +665,7 @@ def run(rep):
         for mm in r["mismatch"]:
             rep.violation(f"mem({tag}):replay-mismatch", f"memory {tag}: the state reached by loading rows/registers through ctx.set differs from "
                           f"the state reached by replaying the port actions from reset: {mm}", {"cfg": r["cfg"], "path": mm["path"], "kind": "replay-mismatch"})
-        if r["transitions"] > 2000:
+        if r["transitions"] > 500:
             rep.sample({"config": tag, "states": r["states"], "actions": r["actions"], "transitions": r["transitions"], "bfs_depth": r["depth"],
                         "wall_s": r["wall"]}, limit=40)
     rep.setcov("exhaustive", rep.cov.get("capped_configurations", 0) == 0)
@@ -698,11 +700,13 @@ def replay(payload):
         return []
     idx = [spec.actions.index(a) for a in acts]
     _key, errs = replay_path(spec, idx)
+    if getattr(spec, "root_errs", None):
+        errs = [(0, list(spec.root_errs))] + list(errs)
     want = payload.get("kind")
     out = []
     for i, es in errs:
         for e in es:
             kind, _, text = e.partition("|")
             if want in (None, "replay-mismatch") or kind == want:
-                out.append(f"action {spec.actions[i]}: {kind}: {text}")
+                out.append(f"action {spec.actions[i] if spec.actions else None}: {kind}: {text}")
     return out
